@@ -1,0 +1,11 @@
+//go:build verif
+// +build verif
+
+package buffer
+
+// VerifState is a read-only accessor for the hidden state of the buffer.
+// It exists only in builds with the "verif" tag and is used by the
+// runtime monitors under /verif.
+func (b *Buffer) VerifState() (mode OutputMode, markerOpen bool, validUntil, length, capacity int) {
+	return b.mode, b.markerOpen, b.validUntil, len(b.buf), cap(b.buf)
+}
